@@ -12,10 +12,14 @@ package main
 
 import (
 	"bytes"
+	"database/sql"
 	"encoding/json"
+	"errors"
 	"fmt"
 	"io"
 	"math"
+	"math/big"
+	"os"
 	"reflect"
 	"strings"
 	"time"
@@ -257,6 +261,49 @@ func useRow(row jsonline.Row) string {
 	return "used"
 }
 
+// c17EdgeTexts: texts on the edge of every parser a value can reach (numbers, booleans, dates, date-times, base64).
+var c17EdgeTexts = []string{"", " ", "1e", "2.5E", "-0e", "1e+", "1e-", "1.", ".", "-", "+", "e", "E5", ".5", "-.5", "+5", "0x", "0x1p", "0x1p-2", "1_0", "_", "NaN", "nan", "Inf", "+Inf", "-inf", "Infinity",
+	"1e999", "-1e999", "1e-999", "00", "-0", "9223372036854775808", "-9223372036854775809", "18446744073709551616", "99999999999999999999999999999999", "0.1e", "1E", "1ee1", "--1", "1-", "١٢",
+	"t", "T", "TRUE", "tru", "f", "yes", "null", "nil",
+	"2021-09-24", "2021-9-24", "2021-13-01", "2021-02-30", "0000-00-00", "-001-01-01", "10000-01-01", "2021-09-24T", "2021-09-24T21:21:00", "2021-09-24T21:21:00Z", "2021-09-24T21:21:00+", "2021-09-24T21:21:00+2", "2021-09-24T21:21:00+24:60",
+	"2021-09-24T21:21:60Z", "2021-09-24T24:00:00Z", "2021-09-24T21:21:00.Z", "2021-09-24T21:21:00,5Z", "2021-09-24t21:21:00z", "T21:21:00Z", "Z", "+02:00",
+	"=", "==", "A", "AA", "AAA", "A===", "AQ=", "AQ", "AQ==AQ==", "A Q==", "AQ==\n", "-_-_", "////", "!", "\x00", "\xff\xfe", "\u0000", "é", "\"", "\\", "{", "}", "[", "]", ",", ":"}
+
+// c17Universe: Go values handed to the operations that take a value — every supported type at its edges, and
+// types outside the supported set.
+func c17Universe() []interface{} {
+	type hidden struct {
+		Name   string
+		secret string
+	}
+	type withTime struct {
+		At time.Time
+		p  *int
+	}
+	n5 := 5
+	str := "s"
+	sub := jsonline.NewRow()
+	sub.Set("x", 1)
+	var nilRow jsonline.Row
+	var nilVal jsonline.Value
+	bigOf := func(s string) *big.Int { b, _ := new(big.Int).SetString(s, 10); return b }
+	u := []interface{}{
+		nil, 0, -1, 300, math.MinInt64, uint64(math.MaxUint64), int8(-128), uint8(255), int16(-32768), uint16(65535), int32(math.MinInt32), uint32(math.MaxUint32), int64(math.MaxInt64), uint(math.MaxUint64),
+		0.0, math.Copysign(0, -1), 1.5, -2.5, 1e308, -1e308, 1e-320, math.NaN(), math.Inf(1), math.Inf(-1), float32(math.Inf(1)), float32(math.NaN()), float32(3.4e38), float32(1e-45), 1e19, -1e19, 9.3e18, 256.0, 255.9, -0.9,
+		true, false, []byte(nil), []byte{}, []byte{0}, []byte{1, 0}, []byte{255, 255, 255, 255}, []byte{1, 2, 3, 4, 5, 6, 7, 8}, []byte{1, 2, 3, 4, 5, 6, 7, 8, 9}, []byte("12"), []byte("1e"), []byte("2021-09-24"), []byte("true"), []byte{0xff, 0xfe},
+		time.Time{}, time.Unix(0, 0), time.Unix(-62135596801, 0), time.Unix(253402300800, 0), time.Unix(1<<62, 0), time.Unix(-(1 << 62), 0), time.Date(2021, 9, 24, 21, 21, 0, 5, time.FixedZone("", 100*3600)), time.Date(2021, 9, 24, 21, 21, 0, 0, time.FixedZone("", -23*3600-59*60-59)),
+		[]interface{}{}, []interface{}(nil), []interface{}{1, "a", nil, []interface{}{2}}, map[string]interface{}{}, map[string]interface{}(nil), map[string]interface{}{"a": 1, "": nil, "s": map[string]interface{}{"x": []interface{}{1}}},
+		sub, nilRow, nilVal, jsonline.NewValueAuto(nil), jsonline.NewValue("x", jsonline.Numeric, int8(0)), jsonline.NewValue(sub, jsonline.Auto, nil), jsonline.NewValue(1, jsonline.Format(42), nil), []interface{}{sub, jsonline.NewValueAuto(1)},
+		hidden{"n", "s"}, &hidden{"n", "s"}, withTime{}, &withTime{}, struct{}{}, &struct{}{}, (*hidden)(nil), (*int)(nil), &n5, &str, [2]int{1, 2}, [0]byte{}, [3]byte{1, 2, 3}, []int{1}, []string{"a"}, map[int]string{1: "a"}, map[string]int{"a": 1},
+		make(chan int), func() {}, complex(1, 2), uintptr(1), errors.New("e"), os.ErrNotExist, reflect.ValueOf(1), time.Duration(5), time.UTC, json.RawMessage("1"), json.RawMessage(nil), json.RawMessage("{"),
+		bigOf("5"), bigOf("18446744073709551621"), big.NewFloat(1.5), big.NewRat(1, 3), myInt(3), myString("x"), myBytes{1}, myHash{1, 2, 3, 4}, sql.NullString{String: "x", Valid: true}, &bytes.Buffer{}, strings.NewReader("x"),
+	}
+	for _, txt := range c17EdgeTexts {
+		u = append(u, txt, json.Number(txt))
+	}
+	return u
+}
+
 func genC17(cw *caseWriter, seed uint64, tier string) {
 	r := newRng(seed)
 	// whatever an importer hands back for a bad line — (nil, err) or anything else — can be used without a crash
@@ -489,6 +536,89 @@ func genC17(cw *caseWriter, seed uint64, tier string) {
 		_ = t.CreateRowEmpty()
 		return "done"
 	})
+	// systematic sweep: every format x every raw type x a universe of Go values (edge texts of every parser in
+	// sight, non-finite floats, far-away times, containers, rows, values, and types outside the supported set:
+	// structs with unexported fields, pointers, big numbers, raw JSON …) through every entry point that takes a value
+	uni := c17Universe()
+	for _, f := range fmtNames {
+		for vi, v := range uni {
+			ff, vv := f, v
+			emitProbe(cw, fmt.Sprintf("sweep NewValue/Import/Export/Set #%d %T under %s x every raw type", vi, v, f), func() string {
+				for _, tn := range tyNames {
+					ty := tySample[tn]
+					val := jsonline.NewValue(vv, formatByName[ff], ty)
+					_, _ = val.Export()
+					_, _ = val.MarshalJSON()
+					_ = val.String()
+					_ = val.DebugString()
+					_ = val.Raw()
+					_ = jsonline.CloneValue(val)
+					empty := jsonline.NewValue(nil, formatByName[ff], ty)
+					_ = empty.Import(vv)
+					_, _ = empty.Export()
+					_, _ = empty.MarshalJSON()
+					rr := jsonline.NewRow()
+					rr.SetValue("c", jsonline.NewValue(nil, formatByName[ff], ty))
+					rr.Set("c", vv)
+					_ = rr.ImportAtKey("c", vv)
+					_ = rr.ImportAtIndex(0, vv)
+					_ = rr.ImportAtPath("c", vv)
+					_ = rr.Import(map[string]interface{}{"c": vv})
+					_ = rr.Import([]interface{}{vv})
+					useRow(rr)
+				}
+				return "done"
+			})
+		}
+	}
+	for vi, v := range uni {
+		vv := v
+		emitProbe(cw, fmt.Sprintf("sweep CreateRow/Export/Import of #%d %T itself", vi, v), func() string {
+			t := jsonline.NewTemplate().WithString("a").WithMappedNumeric("b", int8(0)).WithRow("s", jsonline.NewTemplate().WithAuto("x")).WithHidden("h").WithDateTime("d").WithBinary("e")
+			if row, err := t.CreateRow(vv); err == nil {
+				useRow(row)
+			}
+			var sink bytes.Buffer
+			_ = t.GetExporter(&sink).Export(vv)
+			_ = jsonline.NewExporter(&sink).Export(vv)
+			rr := t.CreateRowEmpty()
+			_ = rr.Import(vv)
+			rr.Set("a", vv)
+			rr.Set("new", vv)
+			rr.SetAtIndex(0, vv)
+			_ = rr.ImportAtKey("new2", vv)
+			useRow(rr)
+			_ = jsonline.NewValueAuto(vv)
+			_ = jsonline.CloneRow(rr)
+			var target mapTarget
+			rr.MapTo(&target)
+			return "done"
+		})
+	}
+	// lines: the edge texts as a JSON string and, where they are number literals, as a number, into every format
+	for _, txt := range c17EdgeTexts {
+		for _, f := range fmtNames {
+			tt, ff := txt, f
+			emitProbe(cw, fmt.Sprintf("sweep line %q under %s x every raw type", txt, f), func() string {
+				qb, _ := json.Marshal(tt)
+				lines := []string{`{"c":` + string(qb) + `}`}
+				if json.Valid([]byte(tt)) {
+					lines = append(lines, `{"c":`+tt+`}`)
+				}
+				for _, tn := range tyNames {
+					t := jsonline.NewTemplate().With("c", formatByName[ff], tySample[tn])
+					for _, l := range lines {
+						var sink bytes.Buffer
+						_ = jsonline.NewStreamer(t.GetImporter(strings.NewReader(l+"\n")), t.GetExporter(&sink)).WithProcessor(jsonline.NoFailureProcessor).Stream()
+						if row, err := t.CreateRow(l); err == nil {
+							useRow(row)
+						}
+					}
+				}
+				return "done"
+			})
+		}
+	}
 	// nesting depth 10^4 through parser and marshaller
 	for _, d := range []int{100, 10000} {
 		dd := d
